@@ -439,7 +439,7 @@ func TestC15Structured(t *testing.T) {
 	defer vt.Watch("TestC15Structured", 75*time.Second)()
 	c15Tick = vt.Tick
 	defer func() { c15Tick = func(string) {} }()
-	rapid.Check(t, func(rt *rapid.T) {
+	check(t, func(rt *rapid.T) {
 		rapid.SyncTest(rt, func(rt *rapid.T) { c15StructuredCase(rt, rec) })
 	})
 }
@@ -586,7 +586,7 @@ func TestC15RawBytes(t *testing.T) {
 	defer vt.Watch("TestC15RawBytes", 120*time.Second)()
 	rec := vt.For("C15")
 	rec.Rule("T2 raw: generated byte strings (random bytes, truncated/garbled JSON, deep nesting, floods of unsolicited replies, well-formed hostile requests, duplicates), written in chunks of 1 / 7 / all bytes into the real IOCodec + Remote.Serve of a pool connection (net.Pipe, virtual time); oracle: no panic, another connection still answers vipnode_ping, a well-formed request never ends its own connection, gets exactly one reply per request, and the connection then still answers; undecodable JSON may end that one connection; distinct by bytes")
-	rapid.Check(t, func(rt *rapid.T) {
+	check(t, func(rt *rapid.T) {
 		rapid.SyncTest(rt, func(rt *rapid.T) { c15RawCase(rt, rec) })
 	})
 }
@@ -744,7 +744,7 @@ func TestC15HostileReplies(t *testing.T) {
 	defer vt.Watch("TestC15HostileReplies", 120*time.Second)()
 	rec := vt.For("C15")
 	rec.Rule("T3 replies: a real Remote (plain Call, every pool.RemotePool method, Agent.UpdatePeers on top of it) waits for a reply and the far end answers with generated hostile replies (no result, both result and error, null/empty/mistyped error objects, wrong result types, huge numbers, duplicate keys, hostile peer/URI lists) preceded by unsolicited replies with unknown/string/float/null ids and optionally duplicated; oracle: no panic, the caller returns (error or not) within 20 virtual seconds; distinct by (caller, reply, noise)")
-	rapid.Check(t, func(rt *rapid.T) {
+	check(t, func(rt *rapid.T) {
 		rapid.SyncTest(rt, func(rt *rapid.T) { c15ReplyCase(rt, rec) })
 	})
 }
@@ -763,7 +763,7 @@ func TestC15HTTPReplies(t *testing.T) {
 		io.WriteString(w, b)
 	}))
 	defer ts.Close()
-	rapid.Check(t, func(rt *rapid.T) {
+	check(t, func(rt *rapid.T) {
 		tmpl := rapid.SampledFrom(append(append([]string{}, hostileReplies...), "", "{", "null", "[]", `{"id":1}`, strings.Repeat("x", 70000))).Draw(rt, "reply")
 		mu.Lock()
 		body = strings.ReplaceAll(tmpl, "%ID", "1")
@@ -822,7 +822,7 @@ func TestC15Parsers(t *testing.T) {
 	if err != nil {
 		t.Fatalf("RemoteNode: %v", err)
 	}
-	rapid.Check(t, func(rt *rapid.T) {
+	check(t, func(rt *rapid.T) {
 		what := rapid.SampledFrom([]string{"nodeuri", "peerinfo", "verify", "peers-json"}).Draw(rt, "what")
 		var desc string
 		func() {
